@@ -56,8 +56,14 @@ def run(chk, replay=None):
     # released, the request aborted and the iterable closed - real worker pool under the deterministic scheduler
     import errno
     from checks import chan_common as cc
+    from checks import chan_random
     P = lambda k: {"k": k, "kind": "plain"}
     scns = []
+    # a file handed to wsgi.file_wrapper is closed by the server whatever happens to the connection
+    for la in (0, 1):
+        for how in ("close", "reset"):
+            scns.append(cc.mk([P(1)], lookahead=la, room=0, extra_client=[[how]], drains=False,
+                              apps={1: {"chunks": [120], "filewrapper": True, "cl": "exact"}}, name="file_wrapper response, client %s, la=%d" % (how, la)))
     for la in (0, 1):
         for how in ("close", "reset"):
             scns.append(cc.mk([P(1)], lookahead=la, room=10, extra_client=[["read", 5], [how]], drains=False,
@@ -82,6 +88,7 @@ def run(chk, replay=None):
                                   name="application fails (%s), follower in %s read, la=%d" % (sorted(spec.items())[-1], "the same" if split == "one" else "a later", la)))
     n_pct, dfs = (500, 2000) if chk.thorough else (50, 250)
     cc.explore_and_validate(chk, "C09", scns, n_pct, dfs, bound=2, label="paused-producer")
+    chan_random.explore(chk, "C09", bind=False)
     chk.exhaustive = True
     mid = len(cs) // 3
     chk.sample({"case": cs[mid], "observation": {k: v for k, v in evs[mid]["obs"].items() if k in ("closed", "escaped", "iter_closed", "file_closed", "traceback_on_wire")}})
